@@ -320,6 +320,12 @@ def walk(cfg, m=None, full=True):
                     -1.1754944e-38, 1e-30, -1e-30, u / 1024, -u / 1024,
                     gb * 0.999, -gb * 0.999, gb / 3, -gb / 3, gb / 1000.3,
                     -gb / 1000.3, 17.3 * u * span, -17.3 * u * span])
+  if m["sign"]:
+    # 1-bit sign modes: magnitudes around the float32 resolution of the shifted
+    # argument (x/scale -+ 0.5), where the sign decision and the straight-through
+    # sum are at their limits
+    tiny = np.array([2.0 ** -e for e in (22, 23, 24, 25, 26, 27, 30)]) * u
+    extra = np.concatenate([extra, tiny, -tiny, 3 * tiny, -3 * tiny])
   if m.get("upper") is not None:
     extra = np.concatenate([extra, [m["upper"]]])
   xs = np.concatenate([xs, extra])
